@@ -101,7 +101,9 @@ func cmdCheck(args []string) int {
 	if err != nil {
 		fmt.Fprintln(os.Stderr, "ssasym: error:", err)
 		writeEvidence(evPath, &evidence{PropertyID: id, Tier: tier, Seed: seed, Level: "model_checking",
-			Coverage: map[string]interface{}{"explanation": "engine error: " + err.Error(), "evaluations": 0, "distinct_nontrivial": 0}, WallS: time.Since(t0).Seconds()})
+			Coverage: map[string]interface{}{"explanation": "engine error, nothing was explored: " + err.Error(), "states": 0, "transitions": 0, "traces_validated_against_impl": 0,
+				"obligations": 0, "discharged": 0, "samples": []interface{}{map[string]interface{}{"note": "engine error before any path was explored"}}, "inconclusive": []string{err.Error()}},
+			Assumptions: []string{}, WallS: time.Since(t0).Seconds()})
 		return 2
 	}
 	// replay counterexamples natively
